@@ -180,10 +180,18 @@ impl Sub<f64> for ClockTime {
 			return self.add(-ticks);
 		}
 
-		let fraction = ((self.fraction - ticks).fract() + 1.0) % 1.0;
-		let ticks = self
-			.ticks
-			.saturating_sub((ticks - self.fraction).ceil() as u64);
+		let mut fraction = (self.fraction - ticks).fract();
+		let mut ticks_to_subtract = (ticks - self.fraction).ceil() as u64;
+		if fraction < 0.0 {
+			fraction += 1.0;
+			if fraction >= 1.0 {
+				// the fraction was so close to zero that adding 1.0 rounded it up
+				// to a whole tick, so give that tick back
+				fraction = 0.0;
+				ticks_to_subtract -= 1;
+			}
+		}
+		let ticks = self.ticks.saturating_sub(ticks_to_subtract);
 
 		Self {
 			clock: self.clock,
